@@ -9,7 +9,10 @@ package main
 //     `timeout -= N * gracePeriod`, whether retention returns before removeAll;
 //   - condition(): whether the key passed to execCache.Do mentions the PATH of the script;
 //   - exec / cmdExec: the kill delays handed to waitOrStop, the timed-out message;
-//   - waitOrStop: the name of the interrupt signal.
+//   - waitOrStop: the name of the interrupt signal; whether the helper goroutine's value wins
+//     unconditionally over cmd.Wait's;
+//   - RunT: whether gracePeriod is a local of RunT or package-level state;
+//   - removeAll: whether the chmod pass is for directories only.
 //
 // Every helper here is prefixed tsb to stay clear of the other groups of this package.
 
@@ -527,8 +530,15 @@ func genTsBatch(g *gen) {
 	// ---------------------------------------------------------------- RunT
 	runT := g.funcDecl(dir, "RunT")
 	if runT != nil {
-		// gracePeriod = 100 * time.Millisecond
-		okG := false
+		// gracePeriod = 100 * time.Millisecond: a variable of RunT's own body (a fresh one for every call).
+		// Declared at package level instead, it is state that one RunT call hands to the next.
+		okG, local := false, false
+		emitGrace := func(e ast.Expr) {
+			if v, ok := g.constVal(dir, e); ok && !okG {
+				fmt.Fprintf(&g.buf, "(* testscript.RunT: gracePeriod = %s (ns) *)\nDefinition min_grace : Z := (%s)%%Z.\n\n", exprString(g.fset, e), v.ExactString())
+				okG = true
+			}
+		}
 		ast.Inspect(runT.Body, func(n ast.Node) bool {
 			vs, ok := n.(*ast.ValueSpec)
 			if !ok {
@@ -536,17 +546,31 @@ func genTsBatch(g *gen) {
 			}
 			for i, id := range vs.Names {
 				if id.Name == "gracePeriod" && i < len(vs.Values) {
-					if v, ok := g.constVal(dir, vs.Values[i]); ok {
-						fmt.Fprintf(&g.buf, "(* testscript.RunT: gracePeriod = %s (ns) *)\nDefinition min_grace : Z := (%s)%%Z.\n\n", exprString(g.fset, vs.Values[i]), v.ExactString())
-						okG = true
-					}
+					emitGrace(vs.Values[i])
+					local = okG
+				}
+			}
+			return true
+		})
+		ast.Inspect(runT.Body, func(n ast.Node) bool {
+			// gracePeriod := <constant duration> inside RunT is local too
+			if as, ok := n.(*ast.AssignStmt); ok && as.Tok == token.DEFINE && len(as.Lhs) == 1 && len(as.Rhs) == 1 && !okG {
+				if id, ok := as.Lhs[0].(*ast.Ident); ok && id.Name == "gracePeriod" {
+					emitGrace(as.Rhs[0])
+					local = okG
 				}
 			}
 			return true
 		})
 		if !okG {
-			g.fail("RunT: `gracePeriod = <constant duration>` not found")
+			if e := g.valueExprQuiet(dir, "gracePeriod"); e != nil {
+				emitGrace(e)
+			}
 		}
+		if !okG {
+			g.fail("RunT: `gracePeriod = <constant duration>` not found (neither in RunT nor at package level)")
+		}
+		g.tsbEmitBool("grace_period_is_local", "testscript.RunT: gracePeriod is a variable declared inside RunT (a fresh one per call), not package-level state that a call scales up in place for the calls after it", local)
 		// gp := timeout / 20 ; gp > gracePeriod
 		okD, okF := false, false
 		ast.Inspect(runT.Body, func(n ast.Node) bool {
@@ -884,7 +908,139 @@ func genTsBatch(g *gen) {
 			g.fail("waitOrStop: `if killDelay > 0` not found")
 		}
 		g.tsbEmitBool("kill_only_if_delay_positive", "testscript.waitOrStop: os.Kill is sent only when killDelay > 0", kdPos)
+		// waitErr := cmd.Wait(); if interruptErr := <-errc; interruptErr != nil { return interruptErr }; return waitErr
+		// -- the helper goroutine's value is returned whenever it is not nil, with no further condition
+		found, wins := false, false
+		ast.Inspect(wos.Body, func(n ast.Node) bool {
+			is, ok := n.(*ast.IfStmt)
+			if !ok || is.Init == nil {
+				return true
+			}
+			as, ok := is.Init.(*ast.AssignStmt)
+			if !ok || len(as.Lhs) != 1 || len(as.Rhs) != 1 {
+				return true
+			}
+			v, ok := as.Lhs[0].(*ast.Ident)
+			if !ok {
+				return true
+			}
+			ue, ok := as.Rhs[0].(*ast.UnaryExpr)
+			if !ok || ue.Op != token.ARROW {
+				return true
+			}
+			if ch, ok := ue.X.(*ast.Ident); !ok || ch.Name != "errc" {
+				return true
+			}
+			found = true
+			// the condition is exactly `v != nil` and the body returns v
+			if be, ok := is.Cond.(*ast.BinaryExpr); ok && be.Op == token.NEQ {
+				x, ok1 := be.X.(*ast.Ident)
+				y, ok2 := be.Y.(*ast.Ident)
+				if ok1 && ok2 && x.Name == v.Name && y.Name == "nil" && len(is.Body.List) == 1 && is.Else == nil {
+					if rs, ok := is.Body.List[0].(*ast.ReturnStmt); ok && len(rs.Results) == 1 {
+						if r, ok := rs.Results[0].(*ast.Ident); ok && r.Name == v.Name {
+							wins = true
+						}
+					}
+				}
+			}
+			return true
+		})
+		if !found {
+			g.fail("waitOrStop: `if interruptErr := <-errc; ... { return interruptErr }` not found")
+		}
+		g.tsbEmitBool("interrupt_error_wins", "testscript.waitOrStop: after cmd.Wait, `if interruptErr := <-errc; interruptErr != nil { return interruptErr }` with no further condition (the exit status of the command plays no part)", wins)
 	}
+
+	// ---------------------------------------------------------------- removeAll
+	ra := g.funcDecl(dir, "removeAll")
+	if ra != nil {
+		// filepath.WalkDir(dir, func(path string, entry fs.DirEntry, err error) error { ...
+		//     if entry.IsDir() { os.Chmod(path, 0o777) } ... })
+		// os.Chmod follows symbolic links and WalkDir reports a link as a non-directory entry: every
+		// os.Chmod of the walk function has to sit under `if <entry>.IsDir()`.
+		foundWalk, chmods, guarded := false, 0, 0
+		ast.Inspect(ra.Body, func(n ast.Node) bool {
+			ce, ok := n.(*ast.CallExpr)
+			if !ok || !(tsbIsSel(ce.Fun, "filepath", "WalkDir") || tsbIsSel(ce.Fun, "filepath", "Walk")) || len(ce.Args) != 2 {
+				return true
+			}
+			fl, ok := ce.Args[1].(*ast.FuncLit)
+			if !ok || fl.Type.Params == nil {
+				return true
+			}
+			var names []string
+			for _, f := range fl.Type.Params.List {
+				for _, id := range f.Names {
+					names = append(names, id.Name)
+				}
+			}
+			if len(names) != 3 {
+				return true
+			}
+			foundWalk = true
+			entry := names[1]
+			isDirCond := func(e ast.Expr) bool {
+				c, ok := e.(*ast.CallExpr)
+				return ok && len(c.Args) == 0 && tsbIsSel(c.Fun, entry, "IsDir")
+			}
+			var walk func(n ast.Node, under bool)
+			walk = func(n ast.Node, under bool) {
+				ast.Inspect(n, func(m ast.Node) bool {
+					switch x := m.(type) {
+					case *ast.IfStmt:
+						if x.Init != nil {
+							walk(x.Init, under)
+						}
+						walk(x.Cond, under)
+						walk(x.Body, under || isDirCond(x.Cond))
+						if x.Else != nil {
+							walk(x.Else, under)
+						}
+						return false
+					case *ast.CallExpr:
+						if tsbIsSel(x.Fun, "os", "Chmod") || tsbIsSel(x.Fun, "os", "Lchmod") {
+							chmods++
+							if under {
+								guarded++
+							}
+						}
+					}
+					return true
+				})
+			}
+			walk(fl.Body, false)
+			return false
+		})
+		if !foundWalk {
+			g.fail("removeAll: filepath.WalkDir(dir, func(path, entry, err) ...) not found")
+		}
+		g.tsbEmitBool("remove_all_chmods_dirs_only", "testscript.removeAll: the function handed to filepath.WalkDir calls os.Chmod only under `if entry.IsDir()` (os.Chmod follows symbolic links; WalkDir reports a link as a non-directory)", foundWalk && chmods == guarded)
+	}
+}
+
+// valueExprQuiet: the initialiser of a package-level var or const, nil when there is none.
+func (g *gen) valueExprQuiet(dir, name string) ast.Expr {
+	for _, f := range g.files(dir) {
+		for _, d := range f.Decls {
+			gd, ok := d.(*ast.GenDecl)
+			if !ok {
+				continue
+			}
+			for _, sp := range gd.Specs {
+				vs, ok := sp.(*ast.ValueSpec)
+				if !ok {
+					continue
+				}
+				for i, id := range vs.Names {
+					if id.Name == name && i < len(vs.Values) {
+						return vs.Values[i]
+					}
+				}
+			}
+		}
+	}
+	return nil
 }
 
 func tsbIsSelNode(n ast.Node, x, sel string) bool {
